@@ -119,13 +119,16 @@ def apply_op(buf, op, cls, H, ctx):
         if sub:
             if term and trunc:
                 trunc = False
-            buf.add_sample(observation=np.array([g, 0.5]), action=np.array([g + 0.25]),
-                           reward=float(g), next_observation=np.array([g, 1.5]),
-                           terminated=term, truncated=trunc)
+            sample = dict(observation=np.array([g, 0.5]), action=np.array([g + 0.25]),
+                          reward=float(g), next_observation=np.array([g, 1.5]),
+                          terminated=term, truncated=trunc)
         else:
-            buf.add_sample(observation=np.array([g, 0.5]), action=g + 0.25,
-                           reward=float(g), next_observation=np.array([g, 1.5]),
-                           termination=term)
+            sample = dict(observation=np.array([g, 0.5]), action=g + 0.25,
+                          reward=float(g), next_observation=np.array([g, 1.5]),
+                          termination=term)
+        if g % 2 == 1:  # keyword arguments have no order (the first add included)
+            sample = dict(reversed(list(sample.items())))
+        buf.add_sample(**sample)
         return None
     if kind == "sample":
         if len(buf) == 0:
